@@ -7,11 +7,12 @@ package bitmap
 func ToArray(words []uint64) []int32 {
 
 	r := make([]int32, 0)
-	l := int32(len(words) * 64)
+	// not in int32: a bitmap of 2^25 words has 2^31 bits
+	l := len(words) * 64
 
-	for i := int32(0); i < l; i++ {
+	for i := 0; i < l; i++ {
 		if words[i>>6]&(1<<uint(i&63)) != 0 {
-			r = append(r, i)
+			r = append(r, int32(i))
 		}
 	}
 
